@@ -9,6 +9,7 @@
 //!        replay count <Cxx>              number of cases in the family
 mod emit;
 mod emit_corpus;
+mod gen;
 use pyxis::grammar::ItemPath;
 use pyxis::semantic::types::*;
 use pyxis::semantic::{ResolvedSemanticState, SemanticState};
@@ -809,10 +810,31 @@ fn emit_fail(out: &mut Vec<Fail>, prop: &str, input: String, ptr: usize, x: &emi
         out.push(Fail { family: "emit", input, ptr, expected: "the emitted file carries the resolved item as the property says".into(), actual: x.what.clone() });
     }
 }
-fn emit_family(prop: &str, out: &mut Vec<Fail>) -> usize {
+thread_local! { static GEN_STATS: std::cell::Cell<(usize, usize)> = std::cell::Cell::new((0, 0)); }
+fn emit_family(prop: &str, seed: u64, quick: bool, out: &mut Vec<Fail>) -> usize {
     let mut n = 0;
     let dir = scratch_dir();
     let stride = EMIT_SAMPLE.with(|c| std::mem::replace(&mut c.borrow_mut().0, 0));   // no sampling inside this family
+    // generated programs (gen.rs): accepted by construction most of the time; only accepted ones are checked
+    let per = if quick { 150 } else { 2500 };
+    for ptr in [4usize, 8] {
+        for i in 0..per {
+            let mods = gen::program(seed, i as u64, ptr);
+            n += 1;
+            let mods_ref: Vec<(&str, String)> = mods.iter().map(|(k, s)| (*k, s.clone())).collect();
+            let o = build_modules(&mods_ref, ptr);
+            GEN_STATS.with(|g| { let (a, t) = g.get(); g.set((a + matches!(o, Outcome::Ok(_)) as usize, t + 1)); });
+            match o {
+                Outcome::Ok(st) => {
+                    let e = emit_checked(ptr, &st, &mods_ref, &dir);
+                    for x in &e.viols { emit_fail(out, prop, join_sources(&mods_ref), ptr, x); }
+                }
+                Outcome::Panic(m) => { if prop == "C12" { out.push(Fail { family: "gen", input: join_sources(&mods_ref), ptr, expected: "Ok or Err".into(), actual: format!("PANIC({m})") }); } }
+                Outcome::Err(_) => {}
+            }
+            if out.len() > 30 { break; }
+        }
+    }
     for ptr in [4usize, 8] {
         for (_label, mods) in emit_corpus::corpus() {
             n += 1;
@@ -997,7 +1019,7 @@ fn run_family(prop: &str, seed: u64, quick: bool, out: &mut Vec<Fail>) -> usize 
     if EMIT_PROPS.contains(&prop) {
         // the backend check also runs on every k-th input the other families find accepted
         EMIT_SAMPLE.with(|c| { let mut c = c.borrow_mut(); c.0 = if quick { 97 } else { 13 }; c.1 = seed as usize % 7; });
-        n += emit_family(prop, out);
+        n += emit_family(prop, seed, quick, out);
     }
     if ["C01", "C02", "C03", "C12"].contains(&prop) { n += layout_family(seed, quick, prop, out); }
     if ["C04", "C16", "C02", "C12", "C14", "C06", "C20"].contains(&prop) { n += vft_family(prop, out); }
@@ -1050,6 +1072,22 @@ fn main() {
                     if let Some(d) = st.type_registry().get(&ItemPath::from(format!("m::{name}").as_str())) { println!("{d:#?}"); }
                 }
             }
+        }
+        Some("gen") => {
+            // print generated program <index> for <ptr> (and its outcome)
+            let idx = a.get(2).and_then(|s| s.parse().ok()).unwrap_or(0u64);
+            let ptr = a.get(3).and_then(|s| s.parse().ok()).unwrap_or(8usize);
+            let seed = a.get(4).and_then(|s| s.parse().ok()).unwrap_or(0u64);
+            let mods = gen::program(seed, idx, ptr);
+            println!("{}", join_sources(&mods));
+            println!("// outcome: {}", build_modules(&mods, ptr).tag());
+        }
+        Some("genstats") => {
+            let mut acc = 0; let mut errs: std::collections::BTreeMap<String, usize> = Default::default();
+            let total = 2000;
+            for i in 0..total { let ptr = if i % 2 == 0 { 4 } else { 8 }; match build_modules(&gen::program(0, i as u64, ptr), ptr) { Outcome::Ok(_) => acc += 1, o => { let t = o.tag(); *errs.entry(t.split('`').next().unwrap_or("").chars().take(60).collect()).or_default() += 1; } } }
+            println!("accepted {acc} / {total}");
+            for (k, v) in errs { println!("  {v:5} {k}"); }
         }
         Some("corpus") => {
             for ptr in [4usize, 8] {
